@@ -1741,4 +1741,96 @@ example : (parsePath [115, 117, 98, 47, 97]).root.isEmpty = true ∧
     (∀ f ∈ (parsePath [115, 117, 98, 47, 97]).parts.head?, f.head? ≠ some 126) ∧
     (parsePath [47, 101, 116, 99]).root.isEmpty = false := by decide
 
+/-! ### round-6 owner fixes: the save/load and accepted-update clauses for the model the driver executes (`runN`) -/
+
+/-- **config_roundtrip_nondefault_nested.** `config_roundtrip_nondefault` for the NESTED model, i.e. for every store the
+    tied model reaches — histories whose listeners issue updates of their own included: for any YAML library obeying
+    `parse (dump d) = some d`, saving the options and loading that text into fresh options is accepted and reproduces every
+    non-default value. (`saveLoad` itself involves no listener: fresh options have none.) -/
+theorem config_roundtrip_nondefault_nested {Text : Type} (Y : Yaml Text) (law : ∀ d, Y.parse (Y.dump d) = some d)
+    (ops : List Op) : Reproduces (runN ops).1.opts (saveLoad Y (runN ops).1.opts) :=
+  reproduces_of_parse Y _ (inv_runN ops).1 (inv_runN ops).2 (law _)
+
+/-- **config_roundtrip_nondefault_nested (partial, F-C44b).** The NEL-guarded variant for the nested model. -/
+theorem config_roundtrip_nondefault_nested_partial {Text : Type} (Y : Yaml Text) (law : NelLaw Y) (ops : List Op)
+    (hg : ∀ p ∈ (runN ops).1.opts, p.2.hasChanged = true → p.2.cur.nelFree = true) :
+    Reproduces (runN ops).1.opts (saveLoad Y (runN ops).1.opts) := by
+  apply reproduces_of_parse Y _ (inv_runN ops).1 (inv_runN ops).2
+  apply law
+  intro kv hkv
+  obtain ⟨p, hp, hc, rfl⟩ := mem_saveData _ kv hkv
+  exact hg p hp hc
+
+private theorem notifyW_calls_concerned (nested : Store → List (Name × Val) → NRes) (u : List Name) (ls : List Listener) :
+    ∀ s, (notifyW nested u s ls).2.2 = false →
+      ∀ l ∈ ls, concerned l u = true → ∃ ob ∈ (notifyW nested u s ls).2.1, ob.who = l.id ∧ ob.updated = u := by
+  induction ls with
+  | nil => intro s _ l hl; simp at hl
+  | cons a r ih =>
+    intro s hd l hl hc
+    simp only [notifyW] at hd ⊢
+    by_cases hca : concerned a u = true
+    · simp only [hca, if_true] at hd ⊢
+      by_cases hr : a.rejects s u = true
+      · simp [hr] at hd
+      · simp only [hr, Bool.false_eq_true, if_false] at hd ⊢
+        cases hact : a.act s u with
+        | none =>
+          simp only [hact] at hd ⊢
+          rcases List.mem_cons.mp hl with e | e
+          · subst e; exact ⟨⟨l.id, s, u⟩, List.mem_cons_self, rfl, rfl⟩
+          · obtain ⟨ob, hob, h1, h2⟩ := ih s hd l e hc
+            exact ⟨ob, List.mem_cons_of_mem _ hob, h1, h2⟩
+        | some kw =>
+          simp only [hact] at hd ⊢
+          by_cases hn : ((nested s kw).out == Outcome.optionsError) = true
+          · simp [hn] at hd
+          · simp only [hn, Bool.false_eq_true, if_false] at hd ⊢
+            rcases List.mem_cons.mp hl with e | e
+            · subst e; exact ⟨⟨l.id, s, u⟩, List.mem_cons_self, rfl, rfl⟩
+            · obtain ⟨ob, hob, h1, h2⟩ := ih _ hd l e hc
+              exact ⟨ob, List.mem_cons_of_mem _ (List.mem_append_right _ hob), h1, h2⟩
+    · simp only [hca, Bool.false_eq_true, if_false] at hd ⊢
+      rcases List.mem_cons.mp hl with e | e
+      · subst e; exact absurd hc hca
+      · exact ih s hd l e hc
+
+/-- **accepted_update_notifies_assigned_names_nested.** The clause "an accepted update notifies listeners with the names
+    of the assigned options" for the model the driver executes, with listeners that may issue nested updates from inside
+    their handlers: if `update_known` is accepted and assigns at least one option, EVERY listener concerned by the assigned
+    names (subscribers whose name set meets them, every receiver connected to `changed`) is called with exactly those names;
+    the unknown pairs are returned; with no known name nobody is called and nothing changes. (What each listener is shown
+    is the store as threaded through the handlers before it; for listeners that only accept or reject it is the assigned
+    state — `accepted_update_notifies_assigned_names` via `nested_model_agrees_with_flat`.) -/
+theorem accepted_update_notifies_assigned_names_nested (st : St) (kw : List (Name × Val))
+    (h : (updateKnownN st kw).out = .ok) :
+    let known := kw.filter fun kv => hasKey st.opts kv.1
+    let names := known.map (·.1)
+    (updateKnownN st kw).unknown = kw.filter (fun kv => !hasKey st.opts kv.1) ∧
+    (known = [] → (updateKnownN st kw).st = st ∧ (updateKnownN st kw).obs = []) ∧
+    (known ≠ [] → ∀ l ∈ st.listeners, concerned l names = true →
+        ∃ ob ∈ (updateKnownN st kw).obs, ob.who = l.id ∧ ob.updated = names) := by
+  simp only [updateKnownN, withOpts, coreUpdate] at h ⊢
+  split
+  · rename_i h1
+    have hk : (kw.filter fun kv => hasKey st.opts kv.1) = [] := by simpa using h1
+    exact ⟨rfl, fun _ => ⟨rfl, rfl⟩, fun hne => absurd hk hne⟩
+  · rename_i h1
+    have hk : (kw.filter fun kv => hasKey st.opts kv.1) ≠ [] := by simpa using h1
+    split
+    · rename_i h2; simp [h1, h2] at h
+    · split
+      · rename_i h3
+        refine ⟨rfl, fun he => absurd he hk, fun _ l hl hc => ?_⟩
+        have hd : (notifyW (nestedAt maxDepth st.listeners) ((kw.filter fun kv => hasKey st.opts kv.1).map (·.1))
+            (assign st.opts (kw.filter fun kv => hasKey st.opts kv.1)) st.listeners).2.2 = false := by simpa using h3
+        exact notifyW_calls_concerned _ _ _ _ hd l hl hc
+      · rename_i h2 h3; simp [h1, h2, h3] at h
+
+-- the acting listener of the seeded scenario and a watcher: the accepted update of `a` calls both listeners on `a` with [a]
+example :
+    let st : St := { nestedWatchState with subs := nestedWatchState.subs.take 2 }
+    (updateKnownN st [(0, .a (.i 5))]).out = .ok ∧
+    (updateKnownN st [(0, .a (.i 5))]).obs.map (fun ob => (ob.who, ob.updated)) = [(1, [0]), (2, [1])] := by decide
+
 end MitmVerif.Props.C44
